@@ -274,9 +274,54 @@ def judge_run(j, ranks, ref_ranks, nprocs):
     ref_u = vecs_of(ref_ranks, "u")[0]
     # --- consistent vectors vs serial
     for name, rel, ab in (("u", 0, 0), ("w", 0, 0), ("A_u", 1e-11, 1e-12), ("w_minus_half_A_u", 1e-11, 1e-12), ("rhs_post", 1e-11, 1e-12),
+                          ("At_u", 1e-11, 1e-12), ("w_minus_half_At_u", 1e-11, 1e-12), ("diag_A", 1e-12, 1e-13),
+                          ("split_b", 0, 0), ("io_w", 1e-14, 1e-15),
                           ("rhs_filtered", 1e-11, 1e-12), ("pcgj_sol", 1e-6, 1e-7), ("pcgmg_sol", 1e-6, 1e-7)):
+        if name in ("split_b", "io_w") and not any(vecs_of(ranks, name)):
+            continue  # > 2 domain layers: no base levels, splitter part skipped (documented limitation)
         m = j.merged_consistent(vecs_of(ranks, name), name, 1e-9 if "sol" in name else 1e-12, 1e-9 if "sol" in name else 1e-13)
         j.compare_ref(m, vecs_of(ref_ranks, name)[0], name, rel, ab)
+    # base splitter: the joined vector exists on the root only and must be the undecomposed vector; the file round trip
+    # (join_write_out -> split_read_from) must give back w on every patch
+    jn = [d for d in vecs_of(ranks, "join_u") if d]
+    j.events += 1
+    if not any(vecs_of(ranks, "split_b")):
+        pass  # more than 2 domain layers: base levels cannot be kept (documented), the splitter part is skipped by the harness
+    elif len(jn) != 1:
+        j.viol("splitter.join", "not-exactly-one-root", dict(ranks_with_joined_vector=len(jn)))
+    else:
+        j.compare_ref(jn[0], ref_u, "splitter.join_u", 1e-14, 1e-15)
+    wd = vecs_of(ranks, "w")
+    for r, d in enumerate(vecs_of(ranks, "io_w")):
+        for k, v in d.items():
+            j.events += 1
+            # (join converts to type 0 = divides by the number of sharers, and sums the parts again: w/3+w/3+w/3 rounds)
+            if k not in wd[r] or not close(v, wd[r][k], 1e-14, 1e-15):
+                j.viol("splitter.io", "file-round-trip-differs", dict(key=[k[0] * 1e-7, k[1] * 1e-7], rank=r, got=v, expected=wd[r].get(k)))
+                break
+    # asynchronous synchronisation = blocking synchronisation of the same input (up to the summation order of the
+    # contributions, which follows the message arrival order in both)
+    for a, b in (("sync0_async_post", "sync0_post"), ("sync1_async_post", "sync1_post")):
+        va, vb = vecs_of(ranks, a), vecs_of(ranks, b)
+        for r in range(len(va)):
+            j.events += 1
+            bad = next((k for k in vb[r] if k not in va[r] or not close(va[r][k], vb[r][k], 1e-13, 1e-13)), None)
+            if bad is not None or len(va[r]) != len(vb[r]):
+                j.viol("gate." + a, "differs-from-blocking-call", dict(rank=r, key=list(bad) if bad else None, got=va[r].get(bad) if bad else None,
+                                                                     expected=vb[r].get(bad) if bad else None))
+                break
+    # lumped rows (the row sums of a stiffness matrix are rounding noise: the scale is that of the diagonal)
+    m = j.merged_consistent(vecs_of(ranks, "lump_A"), "lump_A", 0, 1e-12 * max([abs(v) for v in vecs_of(ref_ranks, "diag_A")[0].values()] + [1e-300]))
+    if m is not None:
+        ref_l = vecs_of(ref_ranks, "lump_A")[0]
+        dsc = max([abs(v) for v in vecs_of(ref_ranks, "diag_A")[0].values()] + [1e-300])
+        j.events += 1
+        if set(m) != set(ref_l):
+            j.viol("dist.lump_A", "dof-set-differs", dict(only_dist=len(set(m) - set(ref_l)), only_ref=len(set(ref_l) - set(m))))
+        else:
+            bad = next((k for k in m if not abs(m[k] - ref_l[k]) <= 1e-12 * dsc), None)
+            if bad is not None:
+                j.viol("dist.lump_A", "differs-from-serial", dict(key=[bad[0] * 1e-7, bad[1] * 1e-7], distributed=m[bad], serial=ref_l[bad], scale=dsc))
     judge_transfers(j, ranks, ref_ranks)
     # rhs: sum of the pre-sync contributions equals the serial vector
     pre = vecs_of(ranks, "rhs_pre")
@@ -287,6 +332,8 @@ def judge_run(j, ranks, ref_ranks, nprocs):
     j.compare_ref(tot, vecs_of(ref_ranks, "rhs_pre")[0], "rhs_pre_sum", 1e-11, 1e-12)
     # --- scalars: identical on all ranks, equal to serial
     tols = {"dot_u_w": (1e-11, 1e-12), "norm2_u": (1e-12, 0), "norm2sqr_w": (1e-12, 0), "max_abs_u": (0, 0), "pcgj_status_success": (0, 0),
+            "min_abs_u": (0, 0), "max_u": (0, 0), "min_u": (0, 0), "max_abs_u_async": (0, 0), "min_abs_u_async": (0, 0), "max_u_async": (0, 0),
+            "min_u_async": (0, 0), "dot_u_w_async": (1e-11, 1e-12), "norm2_u_async": (1e-12, 0), "norm2sqr_w_async": (1e-12, 0),
             "pcgj_num_iter": (0, 1.01), "pcgj_def_init": (1e-10, 0), "pcgj_def_iter1": (1e-8, 0),
             "pcgj_def_iter2": (1e-8, 0), "pcgj_def_iter3": (1e-8, 0), "pcgj_def_iter5": (1e-7, 0), "pcgj_def_iter8": (1e-6, 0),
             "pcgj_err_h0": (1e-6, 1e-9), "pcgj_err_h1": (1e-6, 1e-9), "pcgmg_status_success": (0, 0), "pcgmg_def_init": (1e-10, 0),
@@ -302,6 +349,16 @@ def judge_run(j, ranks, ref_ranks, nprocs):
             continue
         if not close(vals[0], ref_sc[name], rel, ab):
             j.viol("dist." + name, "differs-from-serial", dict(distributed=vals[0], serial=ref_sc[name], nprocs=nprocs))
+    for a, b in (("dot_u_w_async", "dot_u_w"), ("norm2_u_async", "norm2_u"), ("norm2sqr_w_async", "norm2sqr_w"), ("max_abs_u_async", "max_abs_u"),
+                 ("min_abs_u_async", "min_abs_u"), ("max_u_async", "max_u"), ("min_u_async", "min_u")):
+        j.events += 1
+        if sc[0].get(a) != sc[0].get(b):
+            j.viol("dist." + a, "differs-from-blocking-call", dict(async_value=sc[0].get(a), blocking=sc[0].get(b)))
+    # extrema recomputed from the undecomposed vector
+    for name, exp in (("min_abs_u", min(abs(v) for v in ref_u.values())), ("max_u", max(ref_u.values())), ("min_u", min(ref_u.values()))):
+        j.events += 1
+        if sc[0].get(name) != exp:
+            j.viol("dist." + name, "differs-from-recomputed", dict(distributed=sc[0].get(name), recomputed=exp))
     # final PCG defect: after O(100) iterations the rounding differences of the summation orders have been amplified
     # by the Krylov recurrences, so the last defect is only comparable in magnitude; it must satisfy the stopping
     # criterion of the run (tol_rel 1e-9 w.r.t. the initial defect, which IS compared tightly) and lie within a
@@ -408,7 +465,15 @@ def run(pid, spec, unit, binp, tier, seed, workdir, overlay, scale):
         rc, out = mpirun(binp, 1, base + ["--out", refp, "--sched-seed", "0"], env, 600)
         ref, err = load_run(refp, 1) if rc == 0 else (None, "rc=%s %s" % (rc, out[-1500:]))
         if ref is None:
-            res["harness_errors"].append("C13 reference run failed for %s: %s" % (json.dumps(conf), err))
+            if rc not in (0, None) and ("FATAL ERROR" in out or "ABORT" in out or "Sanitizer" in out or "terminate called" in out):
+                # the single-process program itself dies inside FEAT (assertion / abort): that is a violation of the property
+                # for p = 1, not a problem of the harness
+                res["cases"] += 1
+                res["viols"].append(dict(t="viol", family="dist", k=conf["k"], op="dist.run", kind="abort",
+                                         tags=["mesh:" + conf["mesh"], "space:" + conf["space"], "nprocs:1"],
+                                         detail=dict(rc=rc, output=out[-2500:], config=conf)))
+            else:
+                res["harness_errors"].append("C13 reference run failed for %s: %s" % (json.dumps(conf), err))
             return res, arrival_orders, samples
         plist = plist_quick if tier == "quick" else sorted(set([2, 3, 4, 5, 6, 7, 8] + rng.sample(range(9, 17), 3)))
         ndofs = len(vecs_of(ref, "u")[0]) or sum(len(vecs_of(ref, "u" + q)[0]) for q in (".v0", ".v1", ".p"))
